@@ -181,6 +181,18 @@ class GatedFileLock(filelock.FileLock):
         if ctl is None or threading.get_ident() not in ctl.threads:
             return super().acquire(*args, **kwargs)
         st = ctl.threads[threading.get_ident()]
+        timeout = kwargs.get('timeout', args[0] if args else None)
+        if kwargs.get('blocking') is False or (timeout is not None and timeout >= 0):
+            # a caller that does not want to wait (try-lock, or a bounded wait: under the controller nobody else advances meanwhile, so the
+            # wait would end as it began): one attempt, failure is reported to the caller as the real lock would
+            ctl.gate('lock:try')
+            try:
+                r = super().acquire(timeout=0)
+                ctl.note('acquired', self.lock_file)
+                return r
+            except filelock.Timeout:
+                ctl.note('try_failed', self.lock_file)
+                raise
         while True:
             ctl.gate('lock:acquire')
             try:
